@@ -328,6 +328,9 @@ def run(ctx):
     r09_1_decode(ctx)
     r09_4_glue_and_logging(ctx)
     r09_5_contract_names(ctx)
+    from rules import c08 as _c08
+
+    _c08.r08_5_registration(ctx)  # one method per selector: duplicate signatures and selector collisions are refused (shared with C08)
     return (
         "Abstract evaluation of the router's argument-decoding and glue builders on symbolic parameter lists (0..20 plain parameters, transactions in any position, with and "
         "without ABI output, both conventions): application-argument indices, the 15-argument tuple cutoff, transaction index arithmetic and type asserts, frame cells, "
